@@ -171,7 +171,7 @@ func (o c17POp) desc() string {
 		}
 		return s
 	case 'R':
-		s := fmt.Sprintf("restart config_hash=h%d", o.H)
+		s := fmt.Sprintf("restart config_hash=%q", c17HashStr(o.H))
 		if o.A {
 			s += " [roll-back write fails]"
 		}
@@ -627,6 +627,17 @@ func (w *c17World) do(o c17POp) bool {
 				w.fail("status_is_safe", "status-unparseable", *status)
 			} else if *status != ob.last.String() && !w.statusFromLists(*status) {
 				w.fail("status_is_safe", "status-ahead-of-unprocessed", "status reports "+*status+" which is neither lastCheckpointSeq nor a position up to which every announced sequence is handled")
+			}
+		} else if ob.last.Seq != 0 {
+			// an empty status means the reported position has Seq 0: lastCheckpointSeq does not, so it must come from the lists
+			fromLists := false
+			for _, x := range w.g.Ei {
+				if x.Seq == 0 && w.statusFromLists(x.String()) {
+					fromLists = true
+				}
+			}
+			if !fromLists {
+				w.fail("status_is_next_checkpoint", "status-loses-last-checkpoint", "status reports nothing although lastCheckpointSeq is "+ob.last.String()+" and no announced sequence with Seq 0 is checkpointable")
 			}
 		}
 	}
